@@ -451,7 +451,10 @@ def oracle(sc, plan, ref, log, stderr_txt):
             bad.append(("completion callback for a request that was never presented", "r=%s" % r))
     # requests seen by the URI log callback only (never by the handler) are completed with a NULL context
     if len(log.completed.get("?", [])) > max(0, log.uri_logs - len(log.first)):
-        bad.append(("completion callback for a request that was never presented", "%s" % log.completed.get("?")))
+        bad.append(("more completion notifications than requests presented (duplicate notification with a NULL context)",
+                    "%d request(s) seen by the URI log callback, %d by the handler, %d completion(s) with context, %d without: %s"
+                    % (log.uri_logs, len(log.first), sum(len(v) for k, v in log.completed.items() if k != "?"),
+                       len(log.completed.get("?", [])), log.completed.get("?"))))
     # every response object created was released exactly once
     for rid, n in log.made.items():
         spec = sc.resps.get(int(rid), "")
